@@ -196,7 +196,7 @@ def cfg(consts, invs):
 # =========================================================================== C05
 def c05(ctx):
     acc = Acc()
-    cap = pick(ctx, 6, 60)
+    cap = pick(ctx, 8, 60)
     g_parse(ctx, acc, 'c05g', 'MC_C05', cfg(['MemberCap = %d' % cap, 'Contexts = {1, 2, 3, 4, 5}'], ['EmitVector', 'EmitSweep']), PARSE_KINDS_TREE)
     t_parse(ctx, acc, 'c05t', ['--mode', 'vocab', '--count', str(pick(ctx, 6000, 60000)), '--seed', str(ctx.seed)], PARSE_KINDS_TREE)
     return result('model_checking', acc, True,
@@ -208,8 +208,9 @@ def c05(ctx):
 # =========================================================================== C06
 def c06(ctx):
     acc = Acc()
-    inv = ['InvSpecAgrees', 'InvBlank', 'EmitVector', 'EmitBlank', 'EmitOptionsOnly', 'EmitOptionsFront']
-    g_parse(ctx, acc, 'c06g1', 'MC_C06', cfg(['MaxDev = 1', 'MaskSet = {0, 1, 2, 3}'], inv), PARSE_KINDS_TREE)
+    inv = ['InvSpecAgrees', 'EmitVector', 'EmitOptionsFront']
+    # (the emitters attached to the initial state run once, in the first stage only)
+    g_parse(ctx, acc, 'c06g1', 'MC_C06', cfg(['MaxDev = 1', 'MaskSet = {0, 1, 2, 3}'], inv + ['InvBlank', 'EmitBlank', 'EmitOptionsOnly', 'EmitQuoteSweep']), PARSE_KINDS_TREE)
     if ctx.quick:
         g_parse(ctx, acc, 'c06g2', 'MC_C06', cfg(['MaxDev = 2', 'MaskSet = {0}'], inv), PARSE_KINDS_TREE)
     else:
@@ -218,7 +219,7 @@ def c06(ctx):
                 extra=['-simulate', 'num=20000', '-depth', '11', '-seed', str(ctx.seed)], workers=1, timeout=3000)
     t_parse(ctx, acc, 'c06t', ['--mode', 'layout', '--count', str(pick(ctx, 4000, 40000)), '--seed', str(ctx.seed)], PARSE_KINDS_TREE)
     return result('model_checking', acc, True,
-                  'all trees of size <= 3 over 6 primaries (+3 larger) x redundant-parenthesis masks x every single deviation and every pair of deviations from the canonical spelling (separator per gap, leading/trailing blanks, AND/OR spelling, quoting style); expected = the specification result for the canonical spelling; all blank strings of length <= 3; plus seeded random layouts validated by TLC',
+                  'all trees of size <= 3 over 6 primaries (+3 larger) x redundant-parenthesis masks x every single deviation and every pair of deviations from the canonical spelling (separator per gap, leading/trailing blanks, AND/OR spelling, quoting style); expected = the specification result for the canonical spelling; 32 values with shell-special characters (backslashes alone and doubled, $ ~ # ; & | ` ! * ? { } ...) under 8 string keywords in bare, single- and double-quoted spelling; all blank strings of length <= 3; plus seeded random layouts validated by TLC',
                   ['oracle: Lexer.tla + Grammar.tla; InvSpecAgrees shows the specification itself assigns every variant the canonical result'])
 
 
@@ -390,7 +391,7 @@ def c02(ctx):
     gt_sem(ctx, acc, 'c02single', 'single', 1, SEM_KINDS)
     gt_sem(ctx, acc, 'c02ops', 'ops', pick(ctx, 3, 4), SEM_KINDS, extra_rec=['--warmup'])
     gt_sem(ctx, acc, 'c02pairs', 'pairs', 2, SEM_KINDS, consts='CONSTANT MaxFiles = 60\nCONSTANT Static = FALSE\n')
-    t_sem(ctx, acc, 'c02rand', ['--count', str(pick(ctx, 500, 6000)), '--seed', str(ctx.seed), '--size', '12', '--no-direct'], SEM_KINDS)
+    t_sem(ctx, acc, 'c02rand', ['--count', str(pick(ctx, 500, 20000)), '--seed', str(ctx.seed), '--size', '12', '--no-direct'], SEM_KINDS)
     return tv_result(acc, 'every supported primary alone with every generated member of its argument language plus 50 boundary-rich arguments; all trees up to %d nodes over 8 representative primaries and not/and/or/list; seeded random trees up to 12 nodes over the full supported vocabulary; each program executed on the directed files of Backend.tla DirectedFiles (3 base files + every leaf variant around each)' % pick(ctx, 3, 4), [])
 
 
@@ -399,14 +400,14 @@ def c09(ctx):
     design_check(ctx, acc, 'c09', pick(ctx, 3, 4))
     gt_sem(ctx, acc, 'c09trees', 'c09', pick(ctx, 3, 5), SEM_KINDS)
     gt_sem(ctx, acc, 'c09pairs', 'pairacts', 1, SEM_KINDS, consts='CONSTANT MaxFiles = 60\nCONSTANT Static = FALSE\n')
-    t_sem(ctx, acc, 'c09rand', ['--count', str(pick(ctx, 300, 5000)), '--seed', str(ctx.seed), '--size', '10', '--profile', 'c09'], SEM_KINDS)
+    t_sem(ctx, acc, 'c09rand', ['--count', str(pick(ctx, 300, 15000)), '--seed', str(ctx.seed), '--size', '10', '--profile', 'c09'], SEM_KINDS)
     return tv_result(acc, 'all trees up to %d nodes over {true, false, a name test, print, quit, a file print} and not/and/or/list (exhaustive), plus seeded random trees up to 10 nodes over the same leaves; outputs on files that make the name test true and false compared with FindSem.tla SemTop (implicit -print iff no action node anywhere)' % pick(ctx, 3, 5), [])
 
 
 def c10(ctx):
     acc = Acc()
     gt_sem(ctx, acc, 'c10acts', 'acts', pick(ctx, 2, 3), ROUTE_KINDS)
-    t_sem(ctx, acc, 'c10rand', ['--count', str(pick(ctx, 200, 3000)), '--seed', str(ctx.seed), '--size', '9', '--profile', 'actions'], ROUTE_KINDS)
+    t_sem(ctx, acc, 'c10rand', ['--count', str(pick(ctx, 200, 10000)), '--seed', str(ctx.seed), '--size', '9', '--profile', 'actions'], ROUTE_KINDS)
     t_sem(ctx, acc, 'c10affix', ['--profile', 'affix', '--no-warmup'], ROUTE_KINDS, consts='CONSTANT MaxFiles = 4\nCONSTANT Static = FALSE\n')
     t_sem(ctx, acc, 'c10mid', ['--count', str(pick(ctx, 40, 400)), '--seed', str(ctx.seed + 3), '--profile', 'chain', '--size', '30'], ROUTE_KINDS, consts='CONSTANT MaxFiles = 3\nCONSTANT Static = FALSE\n')
     t_sem(ctx, acc, 'c10chain', ['--count', str(pick(ctx, 4, 40)), '--seed', str(ctx.seed), '--profile', 'chain', '--size', '300'], ROUTE_KINDS, consts='CONSTANT MaxFiles = %d\nCONSTANT Static = FALSE\n' % pick(ctx, 3, 8))
@@ -477,7 +478,7 @@ def c07(ctx):
     finally:
         del os.environ['FPVERIF_RENDER_DELAY_MS']
     sem_validate(ctx, acc, 'c07clock', trc, SEM_KINDS)
-    t_sem(ctx, acc, 'c07rand', ['--count', str(pick(ctx, 150, 3000)), '--seed', str(ctx.seed), '--size', '3', '--profile', 'numeric'], SEM_KINDS | {'threads-mismatch'})
+    t_sem(ctx, acc, 'c07rand', ['--count', str(pick(ctx, 150, 6000)), '--seed', str(ctx.seed), '--size', '3', '--profile', 'numeric'], SEM_KINDS | {'threads-mismatch'})
     r = result('model_checking', acc, True,
                'front end: 28 numeric slots (ids, counts, thread count, sizes with every unit, times with every unit) x {0, 1, 2^31, 2^32, 2^63, 2^64, floor(2^64/unit) for every unit, a 40-digit number, seeded random values} each -1/0/+1 x sign x 0/1/5 leading zeros, expected verdict and value from BigNat; back end: numeric primaries at their field boundaries compiled and executed by the TLA+ runtime model on files whose field is value-1, value, value+1 (per unit), thread count literal compared with the option',
                RUNTIME_ASSUMPTIONS + ['a size whose byte count exceeds 64 bits may be refused at parse time or at compile time'])
